@@ -65,6 +65,13 @@ def main():
         # demonstration
         demo_cmd = meta.get("demo_cmd", "")
         demo_cmd = demo_cmd.replace("/tmp/seed/out/" + name, sd)
+        place = re.search(r"\bto\s+([\w./-]+/)", str(meta.get("demo_placement", "")))
+        if place and "cp " not in demo_cmd:
+            for fn in os.listdir(os.path.join(sd, "demo")):
+                src = os.path.join(sd, "demo", fn)
+                if os.path.isfile(src):
+                    shutil.copyfile(src, os.path.join(wt, place.group(1), fn))
+            demo_cmd = "# demo files copied to %s\n%s" % (place.group(1), demo_cmd)
         rc1, out1, dt = sh(demo_cmd, wt, timeout=2400); rec("demo with the change: " + demo_cmd, rc1, out1, dt)
         sh(["git", "apply", "-R", "--whitespace=nowarn", patch], wt)
         rc2, out2, dt = sh(demo_cmd, wt, timeout=2400); rec("demo without the change", rc2, out2, dt)
